@@ -10,7 +10,9 @@ Line protocol for the `compose` slice:
             | pol timeout | pol hedge <maxHedges> <cancelOn>
   compose ext <bulkhead id> <k>      hold k permits through the standalone API
   compose adv <ns>                   advance the virtual clock
-  compose run <ctxKey|-|''> <script>  script = items `val,err[,B]` separated by `;` (or `-`)
+  compose run <ctxKey|-|''> <script> [x=<fn|sched|pre>:<k>:<ctx|async>]   script = items `val,err[,B]` separated by `;` (or `-`);
+            x = the execution is cancelled from inside the k-th function invocation / k-th OnRetryScheduled listener / before it
+            starts, through its context or through ExecutionResult.Cancel
     => res <val> <err> verdict=<S|F> inv=<n> att=<a> exe=<e> ret=<r> hed=<h> log=<events> br[..] bh[..] ca[..]
 -/
 namespace Driver.Compose
@@ -24,6 +26,7 @@ structure St where
   runs : Nat := 0
   events : Nat := 0
   maxStack : Nat := 0
+  cancelled : Nat := 0     -- runs in which the scripted cancellation fired
 
 def parseItem (s : String) : Option Item :=
   match s.splitOn "," with
@@ -76,17 +79,27 @@ def step (d : St) (toks : List String) : St × Option String :=
     let bulk := d.w.bulk.mapIdx fun i cb => if i == nat! id then (cb.1, nat! k) else cb
     ({ d with w := { d.w with bulk := bulk } }, none)
   | ["adv", n] => ({ d with w := { d.w with now := d.w.now + int! n } }, none)
-  | [op, ck, script] =>
+  | op :: ck :: script :: xs =>
     if op != "run" && op != "runa" then (d, some "bad-op") else
     let ctxKey := if ck == "-" then none else if ck == "''" then some "" else some ck
     let r : Run := { w := d.w, script := parseScript script, ctxKey := ctxKey }
+    -- optional scripted cancellation point  x=<fn|sched|pre>:<k>:<ctx|async>
+    let r := match xs with
+      | [x] =>
+        match ((x.drop 2).toString).splitOn ":" with
+        | [point, k, cause] =>
+          let c := if cause == "async" then Err.execCanceled else Err.canceled
+          if point == "pre" then { r with ext := some c, cancelCause := c }
+          else { r with cancelAt := some (if point == "fn" then "fn" else "rp.onRetryScheduled", nat! k), cancelCause := c }
+        | _ => r
+      | _ => r
     match execute 400 d.ps r with
     | none => (d, some "diverged")
     | some (res, r) =>
       let verdict := if res.successAll then "S" else "F"
       let nontriv := r.log.length > 4 || res.err.isSome
       ({ d with w := r.w, runs := d.runs + 1, events := d.events + r.log.length, nontrivial := d.nontrivial + (if nontriv then 1 else 0),
-                maxStack := max d.maxStack d.ps.length },
+                maxStack := max d.maxStack d.ps.length, cancelled := d.cancelled + (if r.ext.isSome then 1 else 0) },
        some (s!"res {res.val} {errStr res.err} verdict={verdict} inv={r.inv} att={r.attempts} exe={r.execs} ret={r.retries} hed={r.hedges} " ++
              s!"log={";".intercalate (r.log.map (evStr d.hasHedge))} {worldStr r.w}"))
   | _ => (d, some "bad-op")
